@@ -35,7 +35,7 @@ def run(rep):
     prep = V.prepare(["ZygoVerif.Props.C05"])
     V.lean_phase(rep, prep, "ZygoVerif.Props.C05")
     rep.assumptions += [
-        "the frame condition (`Extends` on the control model, `Extends3` at the fault state on the VM model) is a hypothesis of the exactness theorems (it is what C04's balance discipline provides); the size/function/pc/scope-stack-object theorems need no hypothesis",
+        "the frame condition (`Extends` on the control model, `Extends3` at the fault state on the VM model) is a hypothesis of the GENERAL exactness theorems (arbitrary code); for generated code it is DISCHARGED: vm_text_error_exact_generated (from C04 err_leaves_served) - an erroring text of the model generator's grammar Bal.okLs from any state served by value-returning and erroring texts of that grammar leaves data/scope/address/set-aside stacks exactly those of entry, no hypothesis; vm_text_no_panic_generated. vm_run_error_exact_of_invariant was not the route (its hstep quantifies over every instruction in every state and over failing re-entrant steps; a typing of states speaks about the FETCHED instruction) - C04 proves the loop lemma for the fetched instruction and an error specification per interpreter function. Still a hypothesis: value-level exactness of the data stack for NESTED runs entered with data below, texts outside the grammar, compile errors (class cerr of VmErrorAtRestExact); the size/function/pc/scope-stack-object theorems need no hypothesis",
         "core ops: the failure is written in the program text (k-th dynamic execution of a site told apart by a counter global); the twin oracle of the spec column is Spec/RefEval on setup|prefix|follow-ups",
         "host functions used for injection are registered through the public AddFunction API",
         "a compile error of a nested call argument surfaces when the call executes (arguments are compiled lazily); every 'just before an enclosing form starts' prefix is accepted as 'the part that ran before the failure'",
